@@ -330,6 +330,12 @@ def check(ctx, prog, scope, floor=1, what="branch-free bodies in scope"):
             continue   # a dedicated rule of this check already determines what this body computes: the normal form adds nothing there
         if EXCLUDE.search(path):
             continue
+        if not straight(f) and _three_way(prog, f, want):
+            ctx.visit(f)
+            ctx.generic_visits.add((prog.cfg, f.path))
+            ctx.ob(R, "%s is branch-free and has its reviewed value" % f.short, True,
+                   "written as a three-way chain over the two operands of the reviewed integer `cmp` (Less exactly under <, Equal under ==, Greater under >)", f.loc())
+            continue
         if not straight(f):
             # the body changed form (a loop or a branch appeared): nothing to compare the normal form with.  Whether that is an alarm
             # depends on whether a dedicated rule of this check reads the body - decided when the check finishes.
@@ -357,6 +363,69 @@ def check(ctx, prog, scope, floor=1, what="branch-free bodies in scope"):
                 why = "%d lines, reviewed %d: %s" % (len(got), len(want), (got[len(want):] or want[len(got):])[:2])
         ctx.ob(R, "%s is branch-free and has its reviewed value" % f.short, ok, why, f.loc())
     ctx.floor(R, n, floor, what)
+
+
+_INT_CMP = re.compile(r"^STORE local:v0 = core::cmp::impls::<impl core::cmp::Ord for (?:u8|u16|u32|u64|u128|usize|i8|i16|i32|i64|i128|isize)>::cmp\((.*)\)$")
+
+
+def _split_top(txt):
+    out, depth, cur = [], 0, ""
+    for ch in txt:
+        if ch in "([{<":
+            depth += 1
+        elif ch in ")]}>":
+            depth -= 1
+        if ch == "," and depth == 0:
+            out.append(cur)
+            cur = ""
+        else:
+            cur += ch
+    out.append(cur)
+    return out
+
+
+def _three_way(prog, f, want):
+    """the reviewed body is `a.cmp(&b)` on integers and the new one answers Less / Equal / Greater on paths whose conditions are
+    comparisons of a and b only: decided over the three orderings of (a, b) - no value is enumerated"""
+    if len(want) != 2 or "RET" not in want:
+        return False
+    m = _INT_CMP.match([w for w in want if w != "RET"][0])
+    if not m:
+        return False
+    ab = _split_top(m.group(1))
+    if len(ab) != 2:
+        return False
+    a, b = ab
+    try:
+        ps = path_summary(prog, f)
+    except Exception:
+        return False
+    if not ps or len(ps) < 3:
+        return False
+    holds = {"Lt": {"lt"}, "Le": {"lt", "eq"}, "Eq": {"eq"}, "Ne": {"lt", "gt"}, "Ge": {"gt", "eq"}, "Gt": {"gt"}}
+    flip = {"lt": "gt", "gt": "lt", "eq": "eq"}
+    table = {"Less": set(), "Equal": set(), "Greater": set()}
+    for ln in ps:
+        res, _, conds = ln.partition(" <= ")
+        mm = re.match(r"^core::cmp::Ordering::(Less|Equal|Greater)\{\}$", res)
+        if not mm:
+            return False
+        live = {"lt", "eq", "gt"}
+        for at in [c for c in conds.split(" & ") if c]:
+            am = re.match(r"^(Lt|Le|Eq|Ne|Ge|Gt)\((.*)\)$", at)
+            if not am:
+                return False
+            xy = _split_top(am.group(2))
+            if len(xy) != 2:
+                return False
+            if xy == [a, b]:
+                live &= holds[am.group(1)]
+            elif xy == [b, a]:
+                live &= {flip[o] for o in holds[am.group(1)]}
+            else:
+                return False
+        table[mm.group(1)] |= live
+    return table == {"Less": {"lt"}, "Equal": {"eq"}, "Greater": {"gt"}}
 
 
 # ---- path summaries: loop-free, store-free bodies with a few result sites ------------------------------------------------------------
